@@ -118,19 +118,23 @@ def build(rng, tier):
     # out(x, y) <-- eq(x, y) - on inputs whose last productive iteration only MERGES classes of elements that are all known already (links between seeded classes); the parallel
     # provider (ceqrel_ind.rs) must hand the merged partition on to `total`.  Model side: the serial Lean engine on the explicit-closure twin; the tagged relation (a FakeVec) is masked
     from . import c10, c13
-    eqp = {"rels": [{"arity": 2}, {"arity": 2}, {"arity": 2, "ds": "eqrel"}, {"arity": 2}],
+    # (a later stratum also reads the relation with its first column bound, as the first / second clause of a rule: `cls(x, y) <-- q(x), eq(x, y)` and `eq(x, y), q(y)` - c_index_get
+    # on elements whose class was absorbed into a class that was itself absorbed later)
+    eqp = {"rels": [{"arity": 2}, {"arity": 2}, {"arity": 2, "ds": "eqrel"}, {"arity": 2}, {"arity": 1}, {"arity": 2}, {"arity": 2}],
            "rules": [{"heads": [(2, [("var", 0), ("var", 1)])], "body": [("cl", 0, [("v", 0), ("v", 1)], [])]},
                      {"heads": [(2, [("var", 0), ("var", 1)])], "body": [("cl", 1, [("v", 0), ("v", 1)], []), ("cl", 2, [("v", 0), ("v", 2)], []), ("cl", 2, [("v", 1), ("v", 3)], [])]},
-                     {"heads": [(3, [("var", 0), ("var", 1)])], "body": [("cl", 2, [("v", 0), ("v", 1)], [])]}]}
+                     {"heads": [(3, [("var", 0), ("var", 1)])], "body": [("cl", 2, [("v", 0), ("v", 1)], [])]},
+                     {"heads": [(5, [("var", 0), ("var", 1)])], "body": [("cl", 4, [("v", 0)], []), ("cl", 2, [("v", 0), ("v", 1)], [])]},
+                     {"heads": [(6, [("var", 0), ("var", 1)])], "body": [("cl", 2, [("v", 0), ("v", 1)], []), ("cl", 4, [("v", 1)], []), ("if", ("lt", ("var", 0), ("var", 1)))]}]}
     progs["yeq"] = eng.twin(eqp)
     mods.append(("yeq", c10.module_text("yeq", eqp, par=True)))
-    for j in range(8 if tier == "quick" else 30):
+    for j in range(12 if tier == "quick" else 40):
         r2 = rng.fork(f"yeq{j}")
-        k = r2.range(2, 4)
+        k = r2.range(3, 5)
         seeds = [(2 * i + 1, 2 * i + 2) for i in range(k)]
-        links = [(2 * i + 2, 2 * i + 3) for i in range(k - 1)] if j % 2 == 0 else [(r2.range(1, 2 * k), r2.range(1, 2 * k)) for _ in range(r2.range(1, 3))]
+        links = r2.shuffle([(2 * i + 2, 2 * i + 3) for i in range(k - 1)]) if j % 2 == 0 else [(r2.range(1, 2 * k), r2.range(1, 2 * k)) for _ in range(r2.range(1, 3))]
         links += [(r2.range(1, 2 * k), 50 + j)] if j % 3 == 2 else []        # a link to an element nobody knows: never fires
-        inp = {0: r2.shuffle(seeds), 1: list(dict.fromkeys(links)), 3: []}
+        inp = {0: r2.shuffle(seeds), 1: list(dict.fromkeys(links)), 3: [], 4: [(x,) for x in range(1, 2 * k + 1) if r2.chance(3, 4)], 5: [], 6: []}
         t = r2.choice([1, 2, 4, 8])
         inst = f"yeq_{j}"
         ops = [f"eng new {inst} yeq par {t}"] + engcheck.load_ops(inst, inp) + [f"eng run {inst}", f"eng dump {inst}"]
